@@ -250,9 +250,310 @@ impl Pool for RustPool {
     }
 }
 
+// ================================================================== pool "libc"
+// targets live in libc.so (far from the harness text => the trampoline uses its long, absolute
+// form); never called by the harness or std while a scenario runs
+use libc::{c_char, c_int};
+
+type LibcFn = unsafe extern "C" fn(*const c_char) -> c_int;
+
+fn libc_target(f: usize) -> LibcFn {
+    match f {
+        1 => libc::atoi,
+        2 => libc::unlink,
+        3 => libc::rmdir,
+        _ => libc::chdir,
+    }
+}
+macro_rules! libc_fakes {
+    ($($name:ident = $id:expr),*) => {
+        $( #[inline(never)] pub unsafe extern "C" fn $name(p: *const c_char) -> c_int { black_box(p); LAST.store(200 + $id, SeqCst); 7000 + $id } )*
+    };
+}
+libc_fakes!(lk1 = 1, lk2 = 2, lk3 = 3);
+fn libc_fake(k: usize) -> LibcFn {
+    match k {
+        1 => lk1,
+        2 => lk2,
+        _ => lk3,
+    }
+}
+macro_rules! libc_site_table {
+    ($($k:expr),*) => {
+        pub fn libc_counted_site(k: usize) -> (FuncPtr, CallCountVerifier) {
+            match k {
+                $( $k => injectorpp::fake!(
+                        func_type: unsafe extern "C" fn(p: *const c_char) -> c_int,
+                        when: !p.is_null(),
+                        returns: { site_hit($k); 7000 + SITE_FAKE[$k].load(SeqCst) as c_int },
+                        times: site_n($k)
+                    ), )*
+                _ => panic!("harness: no such site"),
+            }
+        }
+    };
+}
+libc_site_table!(0, 1, 2, 3, 4, 5, 6, 7, 8, 9, 10, 11);
+
+pub struct LibcPool;
+impl Pool for LibcPool {
+    fn name(&self) -> &'static str {
+        "libc"
+    }
+    fn nfuncs(&self) -> usize {
+        4
+    }
+    fn addr(&self, f: usize) -> u64 {
+        libc_target(f) as usize as u64
+    }
+    fn call(&self, f: usize, matching: bool) -> Result<String, String> {
+        LAST.store(0, SeqCst);
+        let t = black_box(libc_target(f));
+        let arg: *const c_char = if matching { b"42-no-such-verif-path\0".as_ptr() as *const c_char } else { std::ptr::null() };
+        if !matching && f != 0 {
+            // the original functions must not be handed a null pointer: only a counted fake (whose
+            // `when` rejects null) is ever called this way; the driver guarantees one is installed
+        }
+        catch_call(|| unsafe { t(arg) }).map(|r| match LAST.load(SeqCst) {
+            0 => if (f == 1 && r == 42) || (f != 1 && r == -1) { "orig".into() } else { format!("ret{r}") },
+            x if (200..300).contains(&x) => format!("k{}", x - 200),
+            x => format!("id{x}"),
+        })
+    }
+    fn call_nocatch(&self, f: usize, matching: bool) -> String {
+        self.call(f, matching).unwrap_or_else(|m| std::panic::panic_any(m))
+    }
+    fn flavours(&self, kind: &str) -> Vec<&'static str> {
+        match kind {
+            "counted" => vec!["counted"],
+            "bool" => vec![],
+            _ => vec!["raw", "fake", "unchecked"],
+        }
+    }
+    fn install(&self, inj: &mut InjectorPP, s: &InstallSpec) {
+        let t = libc_target(s.f);
+        match s.gate.as_str() {
+            "sig" => {
+                inj.when_called(injectorpp::func!(t, unsafe extern "C" fn(*const c_char) -> c_int))
+                    .will_execute_raw(injectorpp::func!(fk_wrong_sig, fn(u64) -> bool));
+                return;
+            }
+            "bool" => {
+                inj.when_called(injectorpp::func!(t, unsafe extern "C" fn(*const c_char) -> c_int)).will_return_boolean(true);
+                return;
+            }
+            "null" => {
+                inj.when_called(injectorpp::func!(t, unsafe extern "C" fn(*const c_char) -> c_int))
+                    .will_execute_raw(unsafe { FuncPtr::new(std::ptr::null(), "x") });
+                return;
+            }
+            _ => {}
+        }
+        let k = s.k();
+        let fk = libc_fake(k);
+        match s.flavour.as_str() {
+            "counted" => {
+                SITE_N[s.site - 1].store(s.n as usize, SeqCst);
+                SITE_FAKE[s.site - 1].store(k as u32, SeqCst);
+                inj.when_called(injectorpp::func!(t, unsafe extern "C" fn(*const c_char) -> c_int)).will_execute(libc_counted_site(s.site - 1))
+            }
+            "fake" => {
+                let p = match k {
+                    1 => injectorpp::fake!(func_type: unsafe extern "C" fn(_p: *const c_char) -> c_int, returns: { plain_hit(1); 7001 }),
+                    2 => injectorpp::fake!(func_type: unsafe extern "C" fn(_p: *const c_char) -> c_int, returns: { plain_hit(2); 7002 }),
+                    _ => injectorpp::fake!(func_type: unsafe extern "C" fn(_p: *const c_char) -> c_int, returns: { plain_hit(3); 7003 }),
+                };
+                inj.when_called(injectorpp::func!(t, unsafe extern "C" fn(*const c_char) -> c_int)).will_execute(p)
+            }
+            "unchecked" => unsafe {
+                inj.when_called_unchecked(injectorpp::func_unchecked!(t)).will_execute_raw_unchecked(injectorpp::func_unchecked!(fk))
+            },
+            _ => inj
+                .when_called(injectorpp::func!(t, unsafe extern "C" fn(*const c_char) -> c_int))
+                .will_execute_raw(injectorpp::func!(fk, unsafe extern "C" fn(*const c_char) -> c_int)),
+        }
+    }
+}
+
+// ================================================================== pool "generic"
+// two instantiations of one generic function are targets; a third one is never named and must
+// keep running its original code (C03: "other instantiations of the same generic function")
+#[inline(never)]
+pub fn gen_target<T: Copy + Into<u64>>(x: T) -> bool {
+    let v: u64 = x.into();
+    LAST.store(100 + (std::mem::size_of::<T>() as u32), SeqCst);
+    black_box(v.wrapping_mul(31).wrapping_add(7)) % 2 == 1
+}
+macro_rules! gen_fakes {
+    ($($name:ident : $t:ty = $id:expr),*) => {
+        $( #[inline(never)] pub fn $name(x: $t) -> bool { black_box(x); LAST.store(200 + $id, SeqCst); true } )*
+    };
+}
+gen_fakes!(g8k1: u8 = 1, g8k2: u8 = 2, g8k3: u8 = 3, g16k1: u16 = 1, g16k2: u16 = 2, g16k3: u16 = 3);
+
+pub struct GenericPool;
+impl GenericPool {
+    pub fn sibling_ok() -> bool {
+        LAST.store(0, SeqCst);
+        let f = black_box(gen_target::<u32> as fn(u32) -> bool);
+        let _ = f(1);
+        LAST.load(SeqCst) == 104
+    }
+}
+impl Pool for GenericPool {
+    fn name(&self) -> &'static str {
+        "generic"
+    }
+    fn nfuncs(&self) -> usize {
+        2
+    }
+    fn addr(&self, f: usize) -> u64 {
+        if f == 1 { gen_target::<u8> as fn(u8) -> bool as usize as u64 } else { gen_target::<u16> as fn(u16) -> bool as usize as u64 }
+    }
+    fn call(&self, f: usize, _matching: bool) -> Result<String, String> {
+        LAST.store(0, SeqCst);
+        let r = if f == 1 {
+            let t = black_box(gen_target::<u8> as fn(u8) -> bool);
+            catch_call(|| t(1))
+        } else {
+            let t = black_box(gen_target::<u16> as fn(u16) -> bool);
+            catch_call(|| t(1))
+        };
+        r.map(|ret| match LAST.load(SeqCst) {
+            0 => if ret { "true".into() } else { "false".into() },
+            101 if f == 1 => "orig".into(),
+            102 if f == 2 => "orig".into(),
+            x if (200..300).contains(&x) => format!("k{}", x - 200),
+            x => format!("id{x}"),
+        })
+    }
+    fn call_nocatch(&self, f: usize, m: bool) -> String {
+        self.call(f, m).unwrap_or_else(|e| std::panic::panic_any(e))
+    }
+    fn flavours(&self, kind: &str) -> Vec<&'static str> {
+        match kind {
+            "bool" => vec!["bool"],
+            "counted" => vec![],
+            _ => vec!["raw", "unchecked"],
+        }
+    }
+    fn install(&self, inj: &mut InjectorPP, s: &InstallSpec) {
+        let k = s.k();
+        if s.gate != "ok" {
+            // refusals: a fake of the OTHER instantiation's type
+            if s.f == 1 {
+                inj.when_called(injectorpp::func!(gen_target::<u8>, fn(u8) -> bool)).will_execute_raw(injectorpp::func!(g16k1, fn(u16) -> bool));
+            } else {
+                inj.when_called(injectorpp::func!(gen_target::<u16>, fn(u16) -> bool)).will_execute_raw(injectorpp::func!(g8k1, fn(u8) -> bool));
+            }
+            return;
+        }
+        if s.kind == "bool" {
+            if s.f == 1 {
+                inj.when_called(injectorpp::func!(gen_target::<u8>, fn(u8) -> bool)).will_return_boolean(s.fake == "true");
+            } else {
+                inj.when_called(injectorpp::func!(gen_target::<u16>, fn(u16) -> bool)).will_return_boolean(s.fake == "true");
+            }
+            return;
+        }
+        let unchecked = s.flavour == "unchecked";
+        if s.f == 1 {
+            let fk: fn(u8) -> bool = match k { 1 => g8k1, 2 => g8k2, _ => g8k3 };
+            if unchecked {
+                unsafe { inj.when_called_unchecked(injectorpp::func_unchecked!(gen_target::<u8>)).will_execute_raw_unchecked(injectorpp::func_unchecked!(fk)) }
+            } else {
+                inj.when_called(injectorpp::func!(gen_target::<u8>, fn(u8) -> bool)).will_execute_raw(injectorpp::func!(fk, fn(u8) -> bool))
+            }
+        } else {
+            let fk: fn(u16) -> bool = match k { 1 => g16k1, 2 => g16k2, _ => g16k3 };
+            if unchecked {
+                unsafe { inj.when_called_unchecked(injectorpp::func_unchecked!(gen_target::<u16>)).will_execute_raw_unchecked(injectorpp::func_unchecked!(fk)) }
+            } else {
+                inj.when_called(injectorpp::func!(gen_target::<u16>, fn(u16) -> bool)).will_execute_raw(injectorpp::func!(fk, fn(u16) -> bool))
+            }
+        }
+    }
+}
+
+// ================================================================== pool "async"
+// targets are the poll functions of two async fns with the same output type
+pub struct AsyncPool;
+fn poll_addr<F: std::future::Future>(_f: &F) -> u64 {
+    let p: fn(std::pin::Pin<&mut F>, &mut std::task::Context<'_>) -> std::task::Poll<F::Output> = <F as std::future::Future>::poll;
+    p as usize as u64
+}
+impl Pool for AsyncPool {
+    fn name(&self) -> &'static str {
+        "async"
+    }
+    fn nfuncs(&self) -> usize {
+        2
+    }
+    fn addr(&self, f: usize) -> u64 {
+        if f == 1 { poll_addr(&crate::asyncs::a1(0)) } else { poll_addr(&crate::asyncs::a2(0)) }
+    }
+    fn call(&self, f: usize, _m: bool) -> Result<String, String> {
+        catch_call(|| {
+            let (v, _polls) = if f == 1 { crate::asyncs::block_on(crate::asyncs::a1(5)) } else { crate::asyncs::block_on(crate::asyncs::a2(5)) };
+            match v {
+                1005 if f == 1 => "orig".to_string(),
+                2005 if f == 2 => "orig".to_string(),
+                7001 => "k1".to_string(),
+                7002 => "k2".to_string(),
+                7003 => "k3".to_string(),
+                x => format!("val{x}"),
+            }
+        })
+    }
+    fn call_nocatch(&self, f: usize, m: bool) -> String {
+        self.call(f, m).unwrap_or_else(|e| std::panic::panic_any(e))
+    }
+    fn flavours(&self, kind: &str) -> Vec<&'static str> {
+        match kind {
+            "jump" => vec!["async", "async_unchecked"],
+            _ => vec![],
+        }
+    }
+    fn install(&self, inj: &mut InjectorPP, s: &InstallSpec) {
+        use crate::asyncs::{a1, a2};
+        if s.gate != "ok" {
+            // wrong output type: refused
+            if s.f == 1 {
+                inj.when_called_async(injectorpp::async_func!(a1(0), u32)).will_return_async(injectorpp::async_return!(1u64, u64));
+            } else {
+                inj.when_called_async(injectorpp::async_func!(a2(0), u32)).will_return_async(injectorpp::async_return!(1u64, u64));
+            }
+            return;
+        }
+        macro_rules! fake_async {
+            ($fun:ident, $val:expr) => {
+                if s.flavour == "async_unchecked" {
+                    unsafe {
+                        inj.when_called_async_unchecked(injectorpp::async_func_unchecked!($fun(0)))
+                            .will_return_async_unchecked(injectorpp::async_return_unchecked!($val, u32))
+                    }
+                } else {
+                    inj.when_called_async(injectorpp::async_func!($fun(0), u32)).will_return_async(injectorpp::async_return!($val, u32))
+                }
+            };
+        }
+        match (s.f, s.k()) {
+            (1, 1) => fake_async!(a1, 7001u32),
+            (1, 2) => fake_async!(a1, 7002u32),
+            (1, _) => fake_async!(a1, 7003u32),
+            (_, 1) => fake_async!(a2, 7001u32),
+            (_, 2) => fake_async!(a2, 7002u32),
+            (_, _) => fake_async!(a2, 7003u32),
+        }
+    }
+}
+
 pub fn make(name: &str) -> Box<dyn Pool> {
     match name {
         "rust" => Box::new(RustPool),
+        "libc" => Box::new(LibcPool),
+        "generic" => Box::new(GenericPool),
+        "async" => Box::new(AsyncPool),
         x => panic!("harness: unknown pool {x}"),
     }
 }
